@@ -8,7 +8,7 @@
 Not decided: num_valid_bits, maybe_exhausted after the last symbol, bit-coder len(), numeric value of
 entropy / KL.
 """
-from vlib import sym, rules, effects, dageq
+from vlib import sym, rules, effects, dageq, anchors
 from vlib.effects import Unresolved
 import props.C08 as c08
 
@@ -105,7 +105,7 @@ def check_num_bits(ctx, F, nb, nw, adt):
 def check_range_sizes(ctx, F):
     nw = c08.get_body(F, [RENC + '::<', '::num_words'], 'num_words')
     nb = c08.get_body(F, [RENC + '::<', '::num_bits'], 'num_bits')
-    nsw = c08.get_body(F, [RENC, '::num_seal_words'], 'num_seal_words')
+    nsw = anchors.range_encoder_parts(F)['num_seal_words']
     key = 'R5/num-words/' + RENC
     role = 'num_words() == words already in bulk + num_seal_words()'
     if not nw or not nb or not nsw:
@@ -171,9 +171,11 @@ def check_sentinels(ctx, F):
     sent = None
     if rd is not None and rd.ret[0] == 'agg' and rd.ret[3] and 'range' in rd.ret[3]:
         sent = peel(rd.ret[2][rd.ret[3].index('range')])
-    users = [('seal', RENC), ('num_seal_words', RENC), ('is_empty', RENC), ('maybe_exhausted', 'stream::queue::RangeDecoder')]
-    for name, adt in users:
-        bs = [b for b in F.bodies if b.promoted is None and b.name == name and b.self_adt == adt and b.dk == 'AssocFn']
+    parts = anchors.range_encoder_parts(F)
+    users = [('seal', RENC, parts['seal']), ('num_seal_words', RENC, parts['num_seal_words']), ('is_empty', RENC, parts['is_empty']),
+             ('maybe_exhausted', 'stream::queue::RangeDecoder', anchors.method(F, 'stream::queue::RangeDecoder', 'maybe_exhausted'))]
+    for name, adt, body in users:
+        bs = [body] if body is not None else []
         k2 = 'R4/sentinel/%s::%s' % (adt, name)
         if not bs:
             ctx.bad('R4', role, adt + '::' + name, 'function not found (anchor missing)', key=k2)
